@@ -520,3 +520,12 @@ for _id, _fl in {
     "C19": {"runtime_types_with_the_maximum_number_of_instances": 30},
 }.items():
     PROPS[_id].setdefault("floors", {}).setdefault("quick", {}).update(_fl)
+
+# floors added with the round-16 seeded changes
+for _id, _fl in {
+    "C06": {"managed_objects_referenced_by_a_root_tuple_only": 30},
+    "C08": {"runtime_types_declared_again_after_their_lookups": 50},
+    "C12": {"stored_values_offered_as_absent_keys": 20},
+    "C14": {"shown_ranges_beyond_32_bits": 20, "shown_slices_of_floats_or_strings": 60, "shown_sequences_of_floats_or_strings": 300},
+}.items():
+    PROPS[_id].setdefault("floors", {}).setdefault("quick", {}).update(_fl)
